@@ -144,7 +144,10 @@ namespace trompeloeil {
     retire_predecessors()
     noexcept
     {
-      seq.retire_until(this);
+      if (this->is_linked())
+      {
+        seq.retire_until(this);
+      }
     }
 
     void
